@@ -19,7 +19,10 @@ for r in rows:
     what = subj.get(name, "")
     if not what and os.path.exists(f"/verif/seeded/{name}/meta.json"):
         m = json.load(open(f"/verif/seeded/{name}/meta.json"))
-        what = re.sub(r"\s+", " ", m["needs_to_manifest"])[:140]
+        what = re.sub(r"[=\-]{3,}", " ", m["needs_to_manifest"])
+        what = re.sub(r"(?i)^\s*change\s*\d+\s*(\(C\d+\))?\s*[-:\u2013\u2014]*\s*", "", what.strip())
+        what = re.sub(r"\s+", " ", what)
+        what = re.split(r"(?i) files? ?/ ?functions? changed| changed:| where:| what:", what)[0][:130]
     first = r["first violation"].split("::")[-1].strip()[:150].replace("|", "/")
     ok = r["exit"] == "1"
     det += ok
@@ -29,6 +32,14 @@ for r in rows:
 out.append("")
 out.append(f"{det} of {len(rows)} (change, property) pairs are reported by the quick tier of the current machinery; "
            f"blind (revision 6f8271e, round-2 changes only): {sum(1 for v in blind.values() if v == '1')} of {len(blind)}.")
+if os.path.exists("/verif/seeded/MATRIX-extra.tsv"):
+    out.append("")
+    out.append("Changes the quick check of their own property does not report, and where they are reported instead:")
+    out.append("")
+    out.append("| change | reported by | tier | first report |")
+    out.append("|---|---|---|---|")
+    for r in csv.DictReader(open("/verif/seeded/MATRIX-extra.tsv"), delimiter="\t"):
+        out.append(f"| {r['change']} | {r['property']} | {r['tier']} | {r['first violation'].replace('|','/')} |")
 s = open("/verif/DESIGN.md").read()
 a = s.index("<!-- MATRIX-BEGIN -->") + len("<!-- MATRIX-BEGIN -->")
 b = s.index("<!-- MATRIX-END -->")
